@@ -135,6 +135,37 @@ func cmdC13(r *RNG, n int, e *Emitter, args []string) {
 				k = 1
 			}
 			ks, kc := scalePaths(s, k), scalePaths(c, k)
+			if r.Intn(5) == 0 {
+				// near-touch at large extent: a long, nearly flat subject edge A = (0,H) -> (512H+1, 0) and a thin clip
+				// triangle whose vertex V lies a fraction of a unit beside A (V = (512u, H-u) is u/H units left of it),
+				// all multiplied by kk so that the extent reaches up to 2^29 while V stays within half a unit of A
+				H := int64(1) << uint(8+r.Intn(5))
+				L := 512*H + 1
+				kk := r.Range(1, (int64(1)<<29)/L)
+				u := r.Range(1, max(1, H/(2*kk))) // kk*u/H < 1/2: V stays within half a unit of A after scaling
+				V := clip.Point64{X: 512 * u, Y: H - u}
+				bs := clip.Paths64{{{X: 0, Y: H}, {X: L, Y: 0}, {X: L, Y: H}}}
+				// the clip wedge is shallow too (its edges through V are nearly parallel to A), or steep
+				a1, a2 := r.Range(500, 30000), r.Range(500, 30000)
+				bc := clip.Paths64{{{X: V.X - a1, Y: V.Y + r.Range(1, a1/200+1)}, V, {X: V.X - a2, Y: V.Y - r.Range(1, a2/200+1)}}}
+				if r.Intn(3) == 0 {
+					bc = clip.Paths64{{V, {X: V.X + r.Range(20, 80), Y: V.Y + H/4}, {X: V.X - r.Range(20, 80), Y: V.Y + H/4}}}
+				}
+				if r.Bool() { // mirrored top-bottom
+					for _, ps := range []clip.Paths64{bs, bc} {
+						for i := range ps {
+							for j := range ps[i] {
+								ps[i][j].Y = H - ps[i][j].Y
+							}
+						}
+					}
+				}
+				ks, kc = scalePaths(bs, kk), scalePaths(bc, kk)
+				k, G = kk, L
+				s, c = bs, bc
+				meta["subject"], meta["clip"] = pathsJSON(s), pathsJSON(c)
+				e.Count("scale-near-touch")
+			}
 			var out clip.Paths64
 			perr := safeCall(func() { out = clip.BooleanOpPaths64(ct, ks, kc, fr) })
 			meta["mode"], meta["k"] = "scale", k
